@@ -282,7 +282,8 @@ def runCase (st : DSt) : List String :=
     -- the resumed run of every level
     let resumed := cuts.map fun c =>
       let l := c.l
-      let d2 : Dag := { slots := c.d.slots, down := fun i => l.down2.getD i [], starters := l.starters2,
+      let dl := reloadDag st.rc c.parent.isNone c.d
+      let d2 : Dag := { slots := dl.slots, down := fun i => l.down2.getD i [], starters := l.starters2,
                         onExec := fun i => l.exec2.getD i false, fails := fun _ => false }
       let fx : Fix :=
         { dirty := fun i => st.dirty.contains i ||
@@ -340,7 +341,9 @@ def runCase (st : DSt) : List String :=
           s!"{tag} res fcalls " ++ " ".intercalate (leaves.map fun i => s!"{i}:{rs.fcalls i}"),
           s!"{tag} res out " ++ " ".intercalate (l.own.map fun i => s!"{i}:" ++ showExp viewRes l.id envR (rs.s.out i)) ]
       | _, _ => [s!"{tag} unreachable"]
-    ["files " ++ " ".intercalate files] ++ perLevel.flatten
+    let refused := cuts.any fun c => loadRefused st.rc (c.l.vlink.map (·.1)) (snapshot st.rc c.s)
+    if refused then ["files " ++ " ".intercalate files, "load-failed"]
+    else ["files " ++ " ".intercalate files] ++ perLevel.flatten
 
 def parseTok (w : String) : Option Tok :=
   match w.splitOn ":" with
@@ -362,10 +365,12 @@ def withCur (s : DSt) (g : Level → Option Level) : DSt × List String :=
 
 def step' (s : DSt) (ws : List String) : DSt × List String :=
   match ws with
-  | ["cfg", r, dfl, cf] => match parseBool r, parseBool dfl, parseBool cf with
-    | some r, some dfl, some cf =>
-      ({ s with rc := { cache := { Cache.Cfg.repaired with clearOnFail := cf }, dropInFlight := dfl, resetReceived := r } }, [])
-    | _, _, _ => (s, ["bad-op"])
+  | ["cfg", r, dfl, cf, sr, fo] =>
+    match parseBool r, parseBool dfl, parseBool cf, parseBool sr, parseBool fo with
+    | some r, some dfl, some cf, some sr, some fo =>
+      ({ s with rc := { cache := { Cache.Cfg.repaired with clearOnFail := cf }, dropInFlight := dfl,
+                        resetReceived := r, silentRelink := sr, faithfulOrder := fo } }, [])
+    | _, _, _, _, _ => (s, ["bad-op"])
   | ["n", n] => match n.toNat? with
     | some n => ({ s with n := n }, [])
     | none => (s, ["bad-op"])
